@@ -118,8 +118,18 @@ CELER_FUNCTION Interaction IoniFinalStateHelper::operator()(Engine& rng)
     // Construct interaction for change to parent (incoming) particle
     Interaction result;
     result.energy = Energy{inc_energy_ - electron_energy_};
-    result.direction = calc_exiting_direction(
-        {inc_momentum_, inc_direction_}, {momentum, secondary_->direction});
+    if (result.energy > zero_quantity())
+    {
+        result.direction = calc_exiting_direction(
+            {inc_momentum_, inc_direction_}, {momentum, secondary_->direction});
+    }
+    else
+    {
+        // The secondary took all the kinetic energy (Bhabha scattering at the
+        // kinematic maximum): the stopped primary has no momentum left and
+        // the momentum difference cannot be normalized
+        result.direction = inc_direction_;
+    }
     result.secondaries = {secondary_, 1};
 
     return result;
